@@ -870,6 +870,13 @@ where
             break true;
         } else {
             verif_point!(SortJoin);
+            // The recursive calls start out assuming that the last partitioning was balanced,
+            // so an imbalanced partitioning has to be charged against the limit here. Otherwise
+            // the limit is never reached while the slice is large and inputs that are adversarial
+            // for the pivot selection nest joins O(n) deep and overflow the stack.
+            if !was_balanced {
+                limit = limit.saturating_sub(1);
+            }
             // Sort the left and right half in parallel.
             let (canceled1, canceled2) = rayon::join(
                 || recurse(left, is_less, pred, limit, canceled),
